@@ -1,94 +1,21 @@
--- root of the library: imports every module so that `lake build` (setup) checks everything
-import Tea.Doc.Facts
-import Tea.Doc.KeyTable
-import Tea.Driver.Util
-import Tea.Input.Detect
-import Tea.Input.Mouse
-import Tea.Input.Reader
-import Tea.Input.RefDecoder
-import Tea.Input.Types
-import Tea.Input.XtermEvent
-import Tea.Input.XtermSpec
+-- Root of the library: the models and specifications only. The proof and property
+-- modules are built module by module (`./check setup` lists them): independently
+-- written proof files may reuse helper names, so no single module imports them all.
 import Tea.Prelude.Bytes
-import Tea.Prelude.Decimal
 import Tea.Prelude.Utf8
-import Tea.Proofs.AltScreen
-import Tea.Proofs.Chunked
-import Tea.Proofs.ChunkedRunes
-import Tea.Proofs.ChunkedStraddle
-import Tea.Proofs.Decimal
-import Tea.Proofs.Flush
-import Tea.Proofs.Inline
-import Tea.Proofs.InlineQ
-import Tea.Proofs.InputBasic
-import Tea.Proofs.InputDetect
-import Tea.Proofs.InputReader
-import Tea.Proofs.InputWidth
-import Tea.Proofs.Lifecycle
-import Tea.Proofs.LifecycleApi
-import Tea.Proofs.LifecycleRank
-import Tea.Proofs.Modes
-import Tea.Proofs.ModesAlt
-import Tea.Proofs.MouseProofs
-import Tea.Proofs.Paint
-import Tea.Proofs.PaintLoop
-import Tea.Proofs.Paste
-import Tea.Proofs.Pipeline
-import Tea.Proofs.Queued
-import Tea.Proofs.Quit
-import Tea.Proofs.RenderBytes
-import Tea.Proofs.Sequence
-import Tea.Proofs.Sequences
-import Tea.Proofs.SequencesTail
-import Tea.Proofs.TermLift
-import Tea.Props.Bridge.C01
-import Tea.Props.Bridge.C02
-import Tea.Props.Bridge.C03
-import Tea.Props.Bridge.C04
-import Tea.Props.Bridge.C05
-import Tea.Props.Bridge.C06
-import Tea.Props.Bridge.C07
-import Tea.Props.Bridge.C09
-import Tea.Props.Bridge.C12
-import Tea.Props.Bridge.C13
-import Tea.Props.Bridge.C14
-import Tea.Props.Bridge.C15
-import Tea.Props.Bridge.C16
-import Tea.Props.Bridge.C17
-import Tea.Props.Bridge.C18
-import Tea.Props.Bridge.C19
-import Tea.Props.Bridge.C20
-import Tea.Props.BridgeC08
-import Tea.Props.BridgeInput
-import Tea.Props.BridgeInputC15
-import Tea.Props.C01
-import Tea.Props.C02
-import Tea.Props.C03
-import Tea.Props.C04
-import Tea.Props.C05
-import Tea.Props.C06
-import Tea.Props.C07
-import Tea.Props.C08
-import Tea.Props.C09
-import Tea.Props.C10
-import Tea.Props.C11
-import Tea.Props.C12
-import Tea.Props.C13
-import Tea.Props.C14
-import Tea.Props.C15
-import Tea.Props.C16
-import Tea.Props.C17
-import Tea.Props.C18
-import Tea.Props.C19
-import Tea.Props.C20
-import Tea.Render.Fps
-import Tea.Render.Model
-import Tea.Render.Program
-import Tea.Runtime.Lifecycle
-import Tea.Runtime.Pipeline
-import Tea.Runtime.Sequence
-import Tea.Time.Model
+import Tea.Prelude.Decimal
+import Tea.Input.Types
+import Tea.Input.Mouse
+import Tea.Input.Detect
+import Tea.Input.Reader
+import Tea.Input.XtermSpec
+import Tea.Input.XtermEvent
 import Tea.VT.Ops
 import Tea.VT.Term
-import Tea.Gen.KeyTable
-import Tea.Gen.Facts
+import Tea.Render.Model
+import Tea.Render.Program
+import Tea.Render.Fps
+import Tea.Runtime.Pipeline
+import Tea.Runtime.Sequence
+import Tea.Runtime.Lifecycle
+import Tea.Time.Model
